@@ -26,6 +26,10 @@ def gen(seed, tier):
         {"parent": 0, "abs": "deco", "fields": [], "weight": None},
         {"parent": 4, "abs": None, "fields": [["union", [["list", INT], ["tuple", [S(0)]]]]], "weight": None}],
         "considered": [0, 1, 2, 3, 4, 5], "start": 0, "xdepth": False}
+    # the witnesses of the known findings of this property run first
+    for k in core.known_findings("C01"):
+        if isinstance(k.get("witness"), dict) and k["witness"].get("op") == "create":
+            cases.append(dict(k["witness"]))
     for src in sy.gen_sources(r, n_record=8, ge=4):
         for dec in (["max", 4], ["pi", 5], ["full", 3], ["prog"], ["max", 1]):
             cases.append({"op": "create", "decl": allforms, "decider": dec, "src": src})
